@@ -168,6 +168,9 @@ class RewardLaw:
             return (2 * z - 1) * 1e6
         if law == "alternating":
             return p.get("a", 1.0) * (1 if i % 2 else -1)
+        if law == "neartie":  # distinct values within a relative 1e-9 of each other (never exactly tied)
+            k = int(z * 7)
+            return p.get("c", 1.0) * (1.0 - k * 1.5e-10)
         if law == "ramp":  # strictly increasing, all distinct
             return i * p.get("s", 0.01) + 1e-3 * z
         if law in ("peak", "peakpos", "bump"):
@@ -328,6 +331,11 @@ def user_delta(dspec):
         return lambda h: a
     if kind == "inv":
         return lambda h: a / (1 + h)
+    if kind == "grow":
+        return lambda h: a * (1 + h)
+    if kind == "table":  # arbitrary, possibly non-monotone values (any function of h is a legal delta)
+        tab = dspec["values"]
+        return lambda h: tab[h % len(tab)]
     raise ValueError(kind)
 
 
